@@ -8,6 +8,7 @@ import (
 	"fmt"
 	"strings"
 	"sync"
+	"unicode"
 	"unicode/utf8"
 
 	"github.com/octohelm/gengo/pkg/gengo"
@@ -47,7 +48,11 @@ type SnipT struct {
 	Raw   int      `json:"raw,omitempty"`  // index into rawArgs
 }
 
-func (t SnipT) build() any {
+func (t SnipT) build() any { return t.buildM(nil) }
+
+// buildM: sc == nil builds with TArg values; otherwise the way generators call T and Sprintf, recording in sc what the
+// caller does afterwards to the arguments it still holds
+func (t SnipT) buildM(sc *[]func()) any {
 	switch t.K {
 	case "block":
 		return snippet.Block(t.S)
@@ -60,7 +65,7 @@ func (t SnipT) build() any {
 	case "seq":
 		parts := make([]snippet.Snippet, len(t.Args))
 		for i, a := range t.Args {
-			parts[i] = a.build().(snippet.Snippet)
+			parts[i] = a.buildM(sc).(snippet.Snippet)
 		}
 		return snippet.Snippets(func(yield func(snippet.Snippet) bool) {
 			for _, p := range parts {
@@ -70,19 +75,72 @@ func (t SnipT) build() any {
 			}
 		})
 	case "tmpl":
+		if sc != nil {
+			// the way generators call T: one snippet.Args map — which stays the caller's, and is scribbled over once the
+			// whole tree is built: every name rebound, every name the format mentions but the map does not added, one more
+			// name added
+			m := snippet.Args{}
+			for i, a := range t.Args {
+				m[t.Names[i]] = a.buildM(sc).(snippet.Snippet)
+			}
+			out := snippet.T(t.S, m)
+			format := t.S
+			*sc = append(*sc, func() {
+				for k := range m {
+					m[k] = scribbleDecoy
+				}
+				for _, nm := range placeholderNames(format) {
+					m[nm] = scribbleDecoy
+				}
+				m["zz"] = scribbleDecoy
+			})
+			return out
+		}
 		args := make([]snippet.TArg, len(t.Args))
 		for i, a := range t.Args {
-			args[i] = snippet.Arg(t.Names[i], a.build().(snippet.Snippet))
+			args[i] = snippet.Arg(t.Names[i], a.buildM(sc).(snippet.Snippet))
 		}
 		return snippet.T(t.S, args...)
 	case "sprintf":
 		args := make([]any, len(t.Args))
 		for i, a := range t.Args {
-			args[i] = a.build()
+			args[i] = a.buildM(sc)
 		}
+		// (the slice spread into Sprintf stays untouched: Go hands a variadic callee the caller's backing array, the code
+		// keeps it, and the statement does not say whose it is afterwards — reading rule in DESIGN 5; T copies its bindings)
 		return snippet.Sprintf(t.S, args...)
 	}
 	panic("bad kind " + t.K)
+}
+
+var scribbleDecoy = snippet.Block("<scribbled>")
+
+// placeholderNames: every @name the format could be read to contain (any run of letters, digits and _ after an @)
+func placeholderNames(format string) []string {
+	var out []string
+	rs := []rune(format)
+	for i := 0; i < len(rs); i++ {
+		if rs[i] != '@' {
+			continue
+		}
+		j := i + 1
+		for j < len(rs) && (rs[j] == '_' || unicode.IsLetter(rs[j]) || unicode.IsDigit(rs[j])) {
+			j++
+			out = append(out, string(rs[i+1:j]))
+		}
+	}
+	return out
+}
+
+// buildScribbled builds the tree the way generators do (T with one Args map the caller keeps) and then overwrites what
+// the caller still holds: a binding is what was handed over when T was called
+func (t SnipT) buildScribbled() snippet.Snippet {
+	var sc []func()
+	out := t.buildM(&sc).(snippet.Snippet)
+	for _, f := range sc {
+		f()
+	}
+	return out
 }
 
 func (t SnipT) isNil() bool {
@@ -325,6 +383,9 @@ func (c snipCase) Run() string {
 	fresh := guard(func() string { return "ok " + hx(renderSnippet(c.T.build().(snippet.Snippet))) })
 	if used := renderThroughUsedWriter(c.T.build().(snippet.Snippet)); used != fresh {
 		return "used-writer-differs fresh=" + fresh + " used=" + used
+	}
+	if kept := guard(func() string { return "ok " + hx(renderSnippet(c.T.buildScribbled())) }); kept != fresh {
+		return "arguments-changed-after-the-call-show fresh=" + fresh + " after=" + kept
 	}
 	return fresh
 }
